@@ -71,6 +71,10 @@ CHECKS = {
              text='Fault enumeration: 32 argument-carrying fault classes are injected into generated schemas; each diagnostic must be attributed to the input file, quote the injected lexeme and '
                   'carry its line; every -w/-i combination must leave exit status and ERROR lines unchanged and toggle only the named warning class.',
              ref='DESIGN.md section 2 C20'),
+ 'C07': dict(tech='reference-model monitor: exppp output re-checked by check-express, compared declaration by declaration (token sequences + expression trees) with the source by an independent EXPRESS reader, and re-printed twice for stability',
+             text='Exploration: model-first generated schemas covering 210 construct kinds (one construct under test per declaration) and the shipped schemas are pretty-printed at 5 line widths x 3 flag '
+                  'settings; the output must be accepted, equivalent to its source up to redundant parentheses and split string literals, and stable under re-printing.',
+             ref='DESIGN.md section 2 C07'),
  'C01': dict(tech='reference-model monitor over recorded executions (independent Part 21 parser vs. files written by the real library) under ASan+UBSan',
              text='Exploration: seeded generated schemas x conforming populations x text variants are read and written by the real p21read/STEPfile '
                   'built with ASan+UBSan from the current tree; an independent Part 21 parser compares the written population value by value with the '
